@@ -95,9 +95,32 @@ func regionOrFull(pa Path, t *Term) IntervalSet {
 }
 
 func RuleK10(r *Report, p *Program) {
-	r.Rule("K10", "every HH:mm built from parsed integers has hours in 0..24, minutes in 0..59 and minutes 0 when hours is 24", 3)
-	r.Rule("K10a", "a decoder returns (nil, error) when the BCD digits are not decimal", 5)
-	r.Rule("K10b", "a calendar-impossible date or time never yields a fabricated value: the decoder returns the zero value or an error", 4)
+	RuleK10Only(r, p, map[string]bool{"K10": true, "K10a": true, "K10b": true})
+}
+
+func RuleK10Only(r *Report, p *Program, which map[string]bool) {
+	tmp := NewReport(r.Property, r.Tier)
+	ruleK10All(tmp, p)
+	docs := map[string]string{
+		"K10":  "every HH:mm built from parsed integers has hours in 0..24, minutes in 0..59 and minutes 0 when hours is 24",
+		"K10a": "a decoder returns (nil, error) when the BCD digits are not decimal",
+		"K10b": "a calendar-impossible date or time never yields a fabricated value: the decoder returns the zero value or an error",
+	}
+	mins := map[string]int{"K10": 3, "K10a": 5, "K10b": 4}
+	for id := range which {
+		r.Rule(id, docs[id], mins[id])
+	}
+	for _, o := range tmp.Obs {
+		if which[o.Rule] {
+			r.add(o)
+		}
+	}
+	for _, f := range tmp.fatal {
+		r.Fatal("K10", "engine", f)
+	}
+}
+
+func ruleK10All(r *Report, p *Program) {
 	tp := p.SSAPkg("types")
 	for _, fn := range p.AllFuncs {
 		if fn.Pkg != tp || fn.Parent() != nil {
@@ -159,7 +182,7 @@ func RuleK10(r *Report, p *Program) {
 							badA = "non-decimal BCD digits do not fail the decode: returns " + cut(pa.Results[0].String(), 60)
 						}
 					}
-					if strings.HasPrefix(k, "isnil(time.ParseInLocation(") && !v {
+					if (strings.HasPrefix(k, "isnil(time.ParseInLocation(") || strings.HasPrefix(k, "isnil(time.Parse(")) && !v {
 						nParse++
 						m := map[string]*Term{}
 						flatten("r", pa.Results[0], m, true)
@@ -240,13 +263,15 @@ func RuleW26(r *Report, p *Program) {
 		// which format accepted? the last examined element of the list
 		wiegand26 := false
 		anyFmt := false
+		last := -1
 		for k, v := range pa.State.Ints {
 			if strings.HasPrefix(k, "formats[") {
-				if v.Equal(IntervalSet{{1, 1}}) {
-					wiegand26 = true
-				}
-				if v.Equal(IntervalSet{{0, 0}}) {
-					anyFmt = true
+				var ix int
+				fmt.Sscanf(k, "formats[%d]", &ix)
+				if ix > last {
+					last = ix
+					wiegand26 = v.Equal(IntervalSet{{1, 1}})
+					anyFmt = v.Equal(IntervalSet{{0, 0}})
 				}
 			}
 		}
@@ -278,9 +303,7 @@ func RuleW26(r *Report, p *Program) {
 				num, hasNum = v, true
 			}
 		}
-		if anyFmt && !hasFac {
-			continue // accepted by an 'any' element before the Wiegand-26 one
-		}
+
 		nW26++
 		switch {
 		case !hasFac || !hasNum:
@@ -564,6 +587,12 @@ func ruleControlState(r *Report, p *Program) {
 		return
 	}
 	table := stringTable(mj)
+	if len(table) == 0 {
+		// the writer may delegate to String()
+		if st := methodOf(p, nt, "String"); st != nil {
+			table = stringTable(st)
+		}
+	}
 	bad := ""
 	n := 0
 	for _, pa := range walkSimple(p, uj, []string{"v", "in"}, nil) {
